@@ -27,7 +27,7 @@ def main():
     if not names:
         patches = sorted(glob.glob("/verif/selftest/refac_patches/*.diff"))
     for n in names:
-        if n and os.path.isdir(f"/tmp/refac/{n}/REFAC_1"):
+        if n and glob.glob(f"/tmp/refac/{n}/REFAC_*/patch.diff"):
             for pd in sorted(glob.glob(f"/tmp/refac/{n}/REFAC_*/patch.diff")):
                 k = os.path.basename(os.path.dirname(pd)).split("_")[1]
                 dst = f"/verif/selftest/refac_patches/{n}_{k}.diff"
